@@ -228,6 +228,31 @@ def eval_C10(item):
                         any(not np.allclose(sub.dot(v), l * v, atol=1e-8 * span * span) for v, l in zip(V, lam)):
                     res['pred'].append('projected_paxes are not the ordered orthonormal eigenvectors of the projected second moments')
                     break
+    # array-like (unhashable) direction arguments: accepted on a fresh object, and a buffer updated in place
+    # between two calls on one object gives the result for its CURRENT contents
+    d_alt = [d[i] + (1 if i == 0 else -1 if i == 1 else 0) for i in range(nd)]
+    if not any(d_alt):
+        d_alt[0] = 2
+    qf_alt = sum(Fraction(d_alt[i]) * cov[i][j] * d_alt[j] for i in range(nd) for j in range(nd)) / sum(x * x for x in d_alt)
+    for mk in (list, lambda v: np.array(v, dtype=float)):
+        with warnings.catch_warnings():
+            warnings.simplefilter('ignore')
+            try:
+                sl = make_stat(pos, wk, fb)
+                buf = mk(d)
+                r1 = float(sl.mom2_along(buf))
+                for i in range(nd):
+                    buf[i] = d_alt[i]
+                r2 = float(sl.mom2_along(buf))
+                r3 = float(sl.mom2_along(tuple(d)))
+            except Exception as e:  # noqa
+                res['pred'].append('mom2_along with an array-like direction on a fresh object raised %s: %s' % (type(e).__name__, str(e)[:80]))
+                continue
+        if not close(r1, qf, span * span) or not close(r3, qf, span * span):
+            res['pred'].append('mom2_along(array-like %r) = %r, quadratic form %s' % (d, r1, qf))
+        if not close(r2, qf_alt, span * span):
+            res['pred'].append('mom2_along with a direction buffer updated in place to %r gives %r (result for the old contents %r), '
+                               'quadratic form %s' % (d_alt, r2, d, qf_alt))
     # several live statistic objects built from ONE caller-owned values array: results must not depend on
     # what was evaluated on the others before, and the caller's array must stay untouched
     shared = np.array([np.nan if k is None else k / float(2 ** fb) for k in wk], dtype=float)
@@ -481,6 +506,44 @@ def eval_C13(item):
     r3 = float(flux_call(fam, vals2, unit2, out, meta2).value)
     if not close(r3, got, got, 1e-8):
         res['pred'].append('depends on the units equal inputs are expressed in: %r (%s) vs %r (%s)' % (r3, unit2, got, unit))
+    # the SAME numbers in OTHER units are other physical inputs: a later call in the same process gets the
+    # textbook value for those (nothing of an earlier call with equal numbers is reused)
+    def textbook(lam_, pix_, bmaj_, bmin_):
+        if fam == 'fnu':
+            t = S
+        elif fam == 'flambda':
+            t = S * lam_ * lam_ / C_SI
+        elif fam == 'surf':
+            t = S * pix_ * pix_
+        elif fam == 'perbeam':
+            t = S * pix_ * pix_ / (PI_Q / (4 * LN2_Q) * bmaj_ * bmin_)
+        else:
+            nu_ = C_SI / lam_
+            t = 2 * KB_SI * S * nu_ * nu_ / (C_SI * C_SI) * pix_ * pix_
+        return t / JY_SI / oscale
+    for which in ('beam', 'pix', 'lam'):
+        meta5 = dict(meta)
+        lam5, pix5, bmaj5, bmin5 = lam, pix, bmaj, bmin
+        if which == 'beam':
+            nb_u, nb_s = ANGLES[(item['b_u'] + 1) % len(ANGLES)]
+            meta5['beam_major'], meta5['beam_minor'] = item['bmaj'] * nb_u, item['bmin'] * nb_u
+            bmaj5, bmin5 = F(item['bmaj']) * nb_s, F(item['bmin']) * nb_s
+        elif which == 'pix':
+            np_u, np_s = ANGLES[(item['pix_u'] + 1) % len(ANGLES)]
+            meta5['spatial_scale'] = item['pix'] * np_u
+            pix5 = F(item['pix']) * np_s
+        else:
+            nl_u, nl_s = LENGTHS[(item['lam_u'] + 1) % len(LENGTHS)]
+            meta5['wavelength'] = item['lam'] * nl_u
+            lam5 = F(item['lam']) * nl_s
+        try:
+            r5 = float(flux_call(fam, vals, unit, out, meta5).value)
+        except Exception as e:  # noqa
+            res['pred'].append('same numbers in other %s units raised %s' % (which, type(e).__name__))
+            continue
+        tb5 = textbook(lam5, pix5, bmaj5, bmin5)
+        if not close(r5, tb5, float(tb5), tol):
+            res['pred'].append('after a call with equal numbers, the %s given in another unit yields %r, textbook %r' % (which, r5, float(tb5)))
     return res
 
 
@@ -640,6 +703,28 @@ def eval_C11(item):
                 pw = POW.get(k, 1)
                 if not close(val[k] ** pw, w ** pw, (10 * DX * DX + 10) ** pw, 1e-8):
                     res['pred'].append('%s differs between vaxis=%d and the transposed data with vaxis=0: %r vs %r' % (k, v, val[k], w))
+    # one statistic object whose metadata dictionary is updated in place (it is read at every evaluation):
+    # after declaring another velocity axis every quantity is that of a fresh object with the new metadata
+    if dim == 3:
+        v_new = (item['vaxis'] + 1 + (len(pos) % 2)) % 3
+        md_live = dict(md)
+        with warnings.catch_warnings():
+            warnings.simplefilter('ignore')
+            try:
+                s_live = PPVStatistic(make_stat(pos, wk, fb), md_live)
+                for attr in ('major_sigma', 'position_angle', 'v_rms', 'x_cen'):
+                    getattr(s_live, attr)
+                md_live['vaxis'] = v_new
+                s_new = PPVStatistic(make_stat(pos, wk, fb), dict(md_live))
+                for k, attr in (('major', 'major_sigma'), ('minor', 'minor_sigma'), ('vrms', 'v_rms'), ('x', 'x_cen'), ('y', 'y_cen'),
+                                ('v', 'v_cen'), ('area_exact', 'area_exact'), ('radius', 'radius'), ('area_ellipse', 'area_ellipse')):
+                    g, w = float(getattr(s_live, attr).value), float(getattr(s_new, attr).value)
+                    pw = POW.get(k, 1)
+                    if not close(g ** pw, w ** pw, (10 * DX * DX + 10) ** pw, 1e-8):
+                        res['pred'].append('%s after changing metadata[\'vaxis\'] from %d to %d on a live object is %r, a fresh object gives %r'
+                                           % (k, item['vaxis'], v_new, g, w))
+            except Exception as e:  # noqa
+                res['pred'].append('live metadata change raised %s: %s' % (type(e).__name__, str(e)[:80]))
     # linear scaling
     if dx is not None:
         md3 = dict(md)
